@@ -38,9 +38,9 @@ LEVEL_TEXT = {
     "C12": {"engine": "kani (engine K)", "technique": K_TECH, "note": "trusted: Kani/CBMC, the stubs listed per harness in evidence.coverage.harnesses (tracing no-ops, fmt::format, rmp decoder in the slicing harnesses); reduced claim: tag table, header size, decoder inverse, slicing logic; full value round trips through serde-derive+rmp are outside",
             "text": "Kani harnesses on the real ant-protocol crate: the RecordKind tag table and decoder over all u32 tags, the rmp-encoded header bytes for all kinds, and panic-freedom / clean failure of the record decoders' slicing logic for all contents of records up to 4 bytes"},
     "C13": {"engine": "symrt (engine D) + kani (engine K)", "technique": D_TECH + "; " + K_TECH + " for the signed byte string", "note": D_NOTE + "; Kani part: rmp_serde::to_vec replaced by a fixed-width encoder driven by the real Serialize impl of QuotingMetrics",
-            "text": "the real PaymentQuote::{has_expired, check_is_signed_by_claimed_peer, hash, historical_verify} and ProofOfPayment::verify_for executed with symbolic timestamps against a symbolic clock (expiry boundary decided by the solver) and an ideal signature scheme; every single-field alteration, key swap and claimed-identity swap must fail verification; CBMC decides that PaymentQuote::bytes_for_signing gives different bytes for any two field sets that differ in one signed field"},
+            "text": "the node's quote.rs (create / verify a quote, duty check on neighbours' quotes) and the real PaymentQuote::{has_expired, check_is_signed_by_claimed_peer, hash, historical_verify} and ProofOfPayment::verify_for executed with symbolic timestamps against a symbolic clock (expiry boundary decided by the solver) and an ideal signature scheme; every single-field alteration, key swap and claimed-identity swap must fail verification; CBMC decides that PaymentQuote::bytes_for_signing gives different bytes for any two field sets that differ in one signed field"},
     "C15": {"engine": "symrt (engine D)", "technique": D_TECH, "note": D_NOTE,
-            "text": "the real chunk_get and get_vault_from_network bodies executed against a model network that returns adversarial replies: data handed back must hash to the requested address; the returned scratchpad must be the owner's, validly signed and the highest valid counter among symbolic counters"},
+            "text": "the real chunk_get and get_vault_from_network bodies and the network layer's handle_split_record_error executed against a model network that returns adversarial replies: data handed back must hash to the requested address; the returned scratchpad must be the owner's, validly signed and the highest valid counter among symbolic counters"},
     "C16": {"engine": "kani (engine K) + symrt (engine D)", "technique": K_TECH + "; " + D_TECH, "note": "trusted: ruint's big-integer algorithms (modelled: u128 stubs in K, division lemma and bounded parse values in D), Kani/CBMC, cvc5 (bv-as-int), z3",
             "text": "checked_add/checked_sub decided by CBMC on fully symbolic 256-bit operands against a carry-chain reference; from_str decided by CBMC for all ASCII strings up to 3 (thorough 4) characters and by symbolic execution for digit templates with symbolic 256-bit values (overflow of units*10^18 + fraction); Display decided for all 256-bit amounts from the formatting requests recorded from the real write!"},
     "C17": {"engine": "kani (engine K)", "technique": K_TECH, "note": "trusted: Kani/CBMC; library loops (hex::decode, serde_json, multiaddr parsing) are replaced or left outside as listed in evidence; transplanted items are copied verbatim from /repo on every run",
